@@ -1,21 +1,18 @@
 SPECIFICATION MCSpec
 CONSTANTS
-  Actor = {"a", "b", "c", "x"}
+  Actor = {"a", "b", "c"}
   Creator = "a"
   Initial <- InitialABC
-  Kinds = {"add", "remove", "promote", "demote"}
-  AccessArgs <- ArgsPlain
+  Kinds = {"add", "promote", "demote"}
+  AccessArgs <- ArgsCond
   Replica = {r1, r2}
   MaxOps = 3
-  MaxRejected = 1
+  MaxRejected = 0
   Defect_TieBreakByPartialCmp = FALSE
   Defect_NoopModifyUnchecked = FALSE
+  Defect_RecreateAccepted = FALSE
 INVARIANTS
   C31_Convergence
   C31_IncrementalEqualsRebuild
   C31_VerdictsAgree
-  C33_OnlyAuthorized
-  C33_MembersHaveOrigin
 SYMMETRY ReplicaSymmetry
-PROPERTIES
-  C33_RejectLeavesUnchanged
